@@ -212,3 +212,35 @@ def c10_slices(report, cfg):
                                     graphs=(got, exp))
             engine_guard(go, report, "R10.2", ikey)
     return n
+
+
+def only_beyond_format_limit(a, top_inputs, trials=40, seed=5):
+    """Semantic filter for a recorded assertion (dict with 'cond' = the bit that must hold): True when no
+    assignment tried makes it fail while every top counter word (the most significant word of a length /
+    block counter) has its two highest bits clear - i.e. the assertion guards the format limit only.
+    Boundary assignments (all other inputs all-ones / zero) are included, so a checked addition on a LOW
+    counter word or on a length is still reported."""
+    import random
+    fail = a["cond"] ^ bv.ONE
+    sup = bv.support((fail,))
+    widths = {}
+    for n, i in sup:
+        widths[n] = max(widths.get(n, 0), i + 1)
+    if not any(n in widths for n in top_inputs):
+        return False
+    rnd = random.Random(seed)
+    cases = []
+    for mode in ("ones", "zero", "rand"):
+        for _ in range(1 if mode != "rand" else trials):
+            env = {}
+            for n, w in widths.items():
+                v = (1 << w) - 1 if mode == "ones" else (0 if mode == "zero" else rnd.choice([rnd.getrandbits(w), (1 << w) - 1, (1 << w) - 1 - rnd.getrandbits(3)]))
+                if n in top_inputs:
+                    v &= (1 << (w - 2)) - 1 if w > 2 else 0
+                env[n] = v
+            cases.append(env)
+    for env in cases:
+        ev = bv.Evaluator(env, bv._PrfFns())
+        if ev.bit(fail):
+            return False
+    return True
